@@ -724,5 +724,7 @@ def fmt(ctx: Ctx) -> List[Ob]:
         if it is not None:
             ok = RN(tl, recs[0], it) in ("self._root.children", "self._root._children", "self.children", "self.system_root.children") and norm(recs[0].func.value) == tv \
                 and any(k.arg == "mapper" and norm(k.value) == "mapper" for k in recs[0].keywords)
-    O(["C14"], tl, "to_dict_list collects one dict per top-level node", ok)
+    if ok is None and recs and any(norm(c.func.value) in ("self._root", "self.system_root") for c in recs):
+        ok = False  # witness: the invisible root itself is serialised (its mapper call, its missing 'children' for an empty tree)
+    O(["C14"], tl, "to_dict_list collects one dict per top-level node", ok, "the system root is not part of the dict form; an empty tree gives []")
     return obs
